@@ -381,6 +381,12 @@ func alphabet() []item {
 		{"notif-settrace", func(m *model, i int) step {
 			return m.stamp(notification("notif-settrace", "$/setTrace", `{"value":"off"}`))
 		}},
+		// ---- document notifications without a "params" member: invalid, so they change nothing - in particular they
+		// must not act on whatever the previous message carried
+		{"chg-noparams", func(m *model, i int) step { return m.stamp(notification("chg-noparams", "textDocument/didChange", "")) }},
+		{"close-noparams", func(m *model, i int) step { return m.stamp(notification("close-noparams", "textDocument/didClose", "")) }},
+		{"open-noparams", func(m *model, i int) step { return m.stamp(notification("open-noparams", "textDocument/didOpen", "")) }},
+		{"save-noparams", func(m *model, i int) step { return m.stamp(notification("save-noparams", "textDocument/didSave", "")) }},
 		// ---- messages that are neither a request nor a notification
 		junk("id-null", `{"jsonrpc":"2.0","id":null,"method":"textDocument/hover","params":{`+tdMain+`,"position":{"line":0,"character":2}}}`, ""),
 		junk("malformed", `{"jsonrpc":"2.0","id":$ID,"method":`, "id"),
